@@ -343,3 +343,16 @@ func (l *Log) WaitAny(d time.Duration, pats ...string) int {
 		}
 	}
 }
+
+// NetError is a net.Error whose Timeout() and Temporary() answers are chosen freely, for fault
+// injection with Listener.InjectAcceptError / PacketConn.InjectReadError (e.g. EMFILE-like:
+// Temporary but not Timeout).
+type NetError struct {
+	Msg         string
+	IsTimeout   bool
+	IsTemporary bool
+}
+
+func (e *NetError) Error() string   { return e.Msg }
+func (e *NetError) Timeout() bool   { return e.IsTimeout }
+func (e *NetError) Temporary() bool { return e.IsTemporary }
